@@ -630,6 +630,50 @@ func init() {
 			}
 
 			return map[string]interface{}{"writes": writes, "seq_end": pc.seqNum.seq}, nil
+		case "seqstress":
+			// several goroutines of one association draw sequence numbers at once (the report path of PFCPNode.Serve,
+			// the heartbeat monitor, an agent-initiated association): every number handed out must be fresh
+			pc, _ := c13NewConn(in.Sessions, in.Seq0)
+			const workers, each = 8, 12000
+			got := make([][]uint32, workers)
+
+			var wg sync.WaitGroup
+			for w := 0; w < workers; w++ {
+				wg.Add(1)
+
+				go func(w int) {
+					defer wg.Done()
+					l := make([]uint32, 0, each)
+					for k := 0; k < each; k++ {
+						if w%2 == 0 {
+							l = append(l, pc.getSeqNum())
+						} else {
+							l = append(l, pc.getHeartBeatRequest().msg.Sequence())
+						}
+					}
+					got[w] = l
+				}(w)
+			}
+
+			wg.Wait()
+
+			seen := map[uint32]int{}
+			for _, l := range got {
+				for _, v := range l {
+					seen[v]++
+				}
+			}
+
+			dups := 0
+			first := uint32(0)
+			for v, n := range seen {
+				if n > 1 {
+					dups += n - 1
+					first = v
+				}
+			}
+
+			return map[string]interface{}{"n": workers * each, "distinct": len(seen), "dups": dups, "first_dup": first, "seq_end": pc.seqNum.seq}, nil
 		case "bess":
 			return c13Bess(c13Bytes(in.Datagrams))
 		case "up4":
